@@ -119,6 +119,7 @@ func (m *MMap) ResetFileSize() error {
 }
 
 func (m *MMap) Truncate(size int64) error {
+	verifhook.IO("truncate", m.file.Name(), size)
 	if size >= m.virtualSize {
 		return nil
 	}
